@@ -90,6 +90,23 @@ CHECKS["C02"] = dict(
          "(see text).",
     design="§6 C02")
 
+CHECKS["C07"] = dict(
+    technique="Coq proofs of inverses, of the Jacobian diagonals as true derivatives (Coquelicot is_derive) and of the triangular dependency structure (cumulative maps; ratio node-height transform on every topology) + interval-run correspondence and autograd-Jacobian comparison on the implementation",
+    text="Theorems in prop/C07.v: inverse-after-forward = identity for cumsum, cumsum-exp, softplus, cumsum-softplus, log, "
+         "exp, sigmoid, affine; the diagonal entries of each Jacobian are the true derivatives (softplus' = sigmoid, exp, "
+         "1/x, sigmoid(1-sigmoid), chain rule for cumulative maps) and the reported quantities are their logarithms; "
+         "cumulative maps are triangular (prefix dependence); for the ratio node-height transform on every topology "
+         "heights do not depend on parameters outside the subtree, each height is affine in its own ratio with slope "
+         "(parent height - bound) and the reported value is the sum of ln of exactly these entries. The models are tied "
+         "to the code by interval-run correspondence on transform(x), .inv(y), .log_abs_det_jacobian, "
+         "TransformedParameter() and ReparameterizedTimeTreeModel(); the property itself (reported = slogdet of the "
+         "autograd Jacobian; inv(fwd(x)) = x) is evaluated on the implementation for every case.",
+    note="Trusted: Coq kernel; hand-written models; det(triangular) = product of the diagonal (mathcomp det_trig) is not "
+         "re-proved on the list representation; torch autograd on the implementation side; StickBreaking / "
+         "ConvexCombination / RescaledRate transforms not covered (non-square or nothing reported); TrilExpDiagonal: "
+         "inverse only (it reports no log-det).",
+    design="§6 C07")
+
 PENDING_REASON = "check not built yet in this session (build order in DESIGN.md §9); will be claimed once its theorem file and correspondence run clean"
 
 
